@@ -473,6 +473,10 @@ def run_check(check_id, tier, seed, replay=None):
     post = {}
     if hasattr(mod, 'parent_post'):
         post = mod.parent_post(tier, seed, merged) or {}
+        for v in post.pop('violations', []):
+            violations.append(v)
+        if isinstance(post.get('fuzz'), dict):
+            merged['evaluations'] += int(post['fuzz'].get('executions', 0))
 
     wall = time.time() - t0
     coverage = {
